@@ -9,14 +9,14 @@ import (
 	"strings"
 )
 
-// esc keeps [A-Za-z0-9_.()+,<>/-] and writes every other byte as %XX (upper-case hex).
-func esc(s string) string {
+// esc keeps [A-Za-z0-9_.()+-] and writes every other byte as %XX (upper-case hex); escv additionally keeps ',' and '/'.
+func escWith(s string, extra string) string {
 	var b strings.Builder
 	for i := 0; i < len(s); i++ {
 		c := s[i]
 		switch {
 		case c >= 'a' && c <= 'z', c >= 'A' && c <= 'Z', c >= '0' && c <= '9',
-			c == '_', c == '.', c == '(', c == ')', c == '+', c == ',', c == '/', c == '-', c == '@', c == '#':
+			c == '_', c == '.', c == '(', c == ')', c == '+', c == '-', strings.IndexByte(extra, c) >= 0:
 			b.WriteByte(c)
 		default:
 			fmt.Fprintf(&b, "%%%02X", c)
@@ -24,6 +24,9 @@ func esc(s string) string {
 	}
 	return b.String()
 }
+
+func esc(s string) string  { return escWith(s, "") }
+func escv(s string) string { return escWith(s, ",/") }
 
 func unesc(s string) string {
 	var b strings.Builder
